@@ -21,6 +21,8 @@ MANIFEST = dict(
 LEVEL = "proof"
 LEVEL_NOTE = MANIFEST["text"]
 
+from props import sched
+
 
 def is_zero(c):
     return node(c) is T_ZERO
@@ -139,6 +141,7 @@ def run(ctx):
 
     # ---- the feedback filter writes the integrator only through integrate / set_pva(correct_pva(get_pva(), .)) --
     _filter_frame(ctx, py)
+    _filter_trace_runs(ctx, py)
     _filter_standin(ctx, py)
 
     # ---- measurement models drop the vertical row (C06 obligations, 2D) -------------------------------------
@@ -167,6 +170,31 @@ def _filter_frame(ctx, py):
     ctx.ob("C13.filter.integrator_writes", "f", ok_m and ok_s and not stores and ok_c, "ast-frame", 0.0,
            "integrator created once as Integrator(<initial pva argument>, with_altitude); methods used: %s; set_pva argument is correct_pva(get_pva(), .); no attribute/item stores on it" % methods,
            cex=None if (ok_m and ok_s and not stores and ok_c) else dict(methods=methods, set_pva_args=[ast.unparse(c.args[0]) for c in sets], stores=[ast.unparse(s_) for s_ in stores]))
+
+
+TRACE_SCHEDULES = [
+    # (increment stamps, per-sensor measurement stamps, time_step)
+    ([0.1, 0.2, 0.3, 0.4, 0.5, 0.6], [[0.15, 0.32, 0.35, 0.38], [0.32, 0.6, 0.05]], 0.25),
+    ([0.1, 0.2, 0.3, 0.4, 0.5, 0.6], [[0.1, 0.2, 0.3, 0.4, 0.5, 0.6], [0.3]], 0.1),
+    ([0.1, 0.2, 0.3, 0.4, 0.5, 0.6, 0.7, 0.8], [[0.45], [0.0, 0.8]], 10.0),
+    ([0.1, 0.25, 0.3, 0.55, 0.6], [[0.26, 0.27, 0.56], [0.3, 0.31]], 0.07),
+]
+
+
+def _filter_trace_runs(ctx, py):
+    """the REAL, uncut run_feedback_filter on symbolic payloads (every increment, initial state, error estimate, gain
+    and covariance value is a free symbol; only the stamps are concrete): every trajectory row has VD literally 0.0 and
+    the initial altitude cell itself, and the 2D sensor models / sd rows are as claimed"""
+    scheds = TRACE_SCHEDULES if ctx.tier != "quick" else TRACE_SCHEDULES[:2]
+    for k, (times, stamps, step) in enumerate(scheds):
+        t0 = time.time()
+        res, pva, inc, ref = sched.feedback_filter_trace(py, times, stamps, step, False)
+        tr = res.trajectory
+        bad = [float(tr.index[i]) for i in range(len(tr)) if not (node(tr.iloc[i]["VD"]) is T_ZERO and node(tr.iloc[i]["alt"]) is node(pva["alt"]))]
+        ok = not bad and len(tr) == len(times) + 1
+        ctx.ob("C13.filter.trace_run[%d]" % k, "T", ok, "trace-domain(real uncut filter, symbolic payload)", time.time() - t0,
+               "stamps %s, measurements %s, time_step %s: all %d rows keep VD literal 0.0 and the initial alt cell" % (times, stamps, step, len(tr)),
+               cex=None if ok else dict(rows=bad[:6], n_rows=len(tr)), native=None if ok else _native_filter(py))
 
 
 def _native_integrator(py, with_set):
